@@ -101,7 +101,12 @@ def part_a(ctx):
         ctx.violation(what, {'kind': 'direct-A', 'scope': scope, 'tree': body, 'source': src_of.get(id(body)) or pygen.render_plain(body, scope)[0], 'layout_seed': lay_of.get(id(body)), 'decisions': eff})
     bad_i = guarded_cases(ctx, rc.IMPORTS, rc.CHECK_PRELUDE, 'check_implx', impl_terms, 150, T_IMPL, 'A')
     bad_r = guarded_cases(ctx, rc.IMPORTS, rc.CHECK_PRELUDE, 'check_refX', ref_terms, 400, T_REF, 'A')
-    bad_v = guarded_cases(ctx, rc.IMPORTS, rc.CHECK_PRELUDE, 'check_visible_instance', ref_terms, 400, T_REF, 'A')
+    # programs whose analysis was too costly to evaluate in the (I) stage: their executions are not fed to the
+    # theorem-instance evaluation either (each would cost as much again)
+    slow = set(impl_meta[i_][0] for i_ in getattr(ctx, 'skipped_idx', {}).get(('A', 'check_implx'), []))
+    vis_terms = [t_ for t_, m_ in zip(ref_terms, ref_meta) if m_[0] not in slow]
+    cov['A_executions_of_skipped_programs'] = len(ref_terms) - len(vis_terms)
+    bad_v = guarded_cases(ctx, rc.IMPORTS, rc.CHECK_PRELUDE, 'check_visible_instance', vis_terms, 400, T_REF, 'A')
     cov['A_programs'] = nprog
     cov['A_executions'] = len(ref_terms)
     cov['A_impl_disagreements'] = len(bad_i)
